@@ -758,3 +758,24 @@ func parseKV(s string) map[string]string {
 	}
 	return m
 }
+
+// FuzzCheck is Check for native fuzz targets: an unknown discrepancy is minimised, written as a
+// replay file and its path returned ("" when the case passes).
+func (c *Ctx) FuzzCheck(cs *Case, ds []Discrepancy) (replay string, sig string) {
+	if len(ds) == 0 {
+		return "", ""
+	}
+	unknown := c.filter(ds)
+	if len(unknown) == 0 {
+		return "", ""
+	}
+	cc := cs.Clone()
+	cc.Property = c.Prop.ID
+	cc.Sigs = nil
+	for _, d := range unknown {
+		cc.Sigs = append(cc.Sigs, d.Sig)
+	}
+	cc.Message = unknown[0].Msg
+	cc = c.minimize(cc)
+	return c.writeReplay(cc), unknown[0].Sig
+}
